@@ -123,6 +123,7 @@ impl LoggerHandle {
                 spec_stack: Vec::default(),
                 primary_writer,
                 other_writers,
+                last_clone_detector: Some(Arc::new(())),
             },
             #[cfg(feature = "specfile")]
             oam_specfile_watcher: None,
@@ -523,6 +524,8 @@ pub(crate) struct WritersHandle {
     spec_stack: Vec<LogSpecification>,
     primary_writer: Arc<PrimaryWriter>,
     other_writers: Arc<HashMap<String, Box<dyn LogWriter>>>,
+    // allows detecting that the last clone is dropped
+    last_clone_detector: Option<Arc<()>>,
 }
 impl WritersHandle {
     fn set_new_spec(&self, new_spec: LogSpecification) -> Result<(), FlexiLoggerError> {
@@ -557,6 +560,16 @@ impl WritersHandle {
 }
 impl Drop for WritersHandle {
     fn drop(&mut self) {
+        // only the last clone shuts down the writers;
+        // dropping some other clone must not stop or lose subsequent output
+        if self
+            .last_clone_detector
+            .take()
+            .and_then(Arc::into_inner)
+            .is_none()
+        {
+            return;
+        }
         self.primary_writer.shutdown();
         for writer in self.other_writers.values() {
             writer.shutdown();
